@@ -58,6 +58,20 @@ CLAIMED.update({
             "Incomplete gamma uninterpreted; integer shapes only; exact reals.", TECH, "4/C17"),
 })
 
+CLAIMED.update({
+    "C11": ("InsideOutsideMethod.run / MaximizationMethod.run on 5-9 small inputs and on the same genealogy with "
+            "non-sample nodes renumbered (2 per input quick, all thorough) and/or validly re-timed: mapped posteriors, "
+            "means, variances, chosen timepoints and marginal likelihood proved equal on every path.",
+            "As C10; priors symbolic (shared through a node-name map); samples at time 0; ignore_oldest_root off.",
+            TECH + "; relational (two-input) execution", "4/C11"),
+    "C38": ("outside_pass(ignore_oldest_root=True) on 6-10 small inputs incl. two-root inputs with the oldest root last "
+            "and not last: every outside vector proved proportional to a reference pass that omits exactly the messages "
+            "from the root with the greatest input time.  Reports the genuine defect F10 (oldest root not the last node) "
+            "as a known finding.",
+            "As C10; the reference pass uses the likelihood object's packing primitives verified by C10.",
+            TECH + "; differential against an in-harness reference", "4/C38"),
+})
+
 NOT_APPLICABLE = {
     "C02": "Every row/column effect of get_modified_ts happens inside tskit's C table routines on concrete "
            "arrays; no symbolic input reaches a branch of tsdate code, so there is nothing for a solver to "
